@@ -47,7 +47,11 @@ Step(e) ==
        /\ UNCHANGED <<open, reqs, linkedN, syncReq, syncedN, nf, alive, everUnlink, closed, owed>>
     \/ /\ e.e = "req" /\ e.lane \in Lanes
        /\ LET r == e.r  l == e.lane IN
-          /\ reqs' = IF e.op \in {"link", "sync"} THEN [reqs EXCEPT ![r][l] = @ + 1] ELSE reqs
+          \* (an unlink sent while a sync of r is unanswered may be processed in the middle of the lane's answer to
+          \* that sync - several events for a map lane: the rest of the answer then links r again, so the one sync
+          \* request accounts for one more linked)
+          /\ reqs' = IF e.op \in {"link", "sync"} \/ (e.op = "unlink" /\ owed[r][l])
+                       THEN [reqs EXCEPT ![r][l] = @ + 1] ELSE reqs
           /\ syncReq' = IF e.op = "sync" THEN [syncReq EXCEPT ![r][l] = @ + 1] ELSE syncReq
           /\ everUnlink' = IF e.op = "unlink" THEN [everUnlink EXCEPT ![r][l] = TRUE] ELSE everUnlink
           /\ owed' = IF e.op = "sync" THEN [owed EXCEPT ![r][l] = TRUE] ELSE owed
